@@ -107,7 +107,9 @@ def _readonly_helper(b):
     if b.get("impl_self") != AXE or b["kind"] == "Closure" or b.get("coroutine") or b["argc"] < 1:
         return False
     l1 = b["locals"][1]
-    return isinstance(l1, list) and l1[0] == "ref" and not l1[1] and len(b["blocks"]) <= 80 and b["vis"] != "pub"
+    # `&self` helpers (extracted checks) and `&mut self` helpers (an extracted piece of the step itself, e.g. a wrapper
+    # classifying the dispatcher's result): private, small, not one of the intercepted roles
+    return isinstance(l1, list) and l1[0] == "ref" and len(b["blocks"]) <= 120 and b["vis"] != "pub"
 
 
 def run_step(ctx, hooks=True, assume=None, order=None, cmp_oracle=None):
